@@ -225,6 +225,17 @@ func (g *G) special(v reflect.Value, name string, depth int) (bool, error) {
 		if depth > 0 {
 			n = g.C.Range("stack.n", 0, 8)
 		}
+		if depth > 0 && g.C.Intn("stack.big", 12) == 0 {
+			// deep stacks of small values: the 24-bit depth field allows far more than 255 entries
+			big := g.C.OneOf("stack.bigN", 255, 256, 257, 1000)
+			s := make(tlb.VmStack, big)
+			for i := range s {
+				s[i] = tlb.VmStackValue{SumType: "VmStkTinyInt", VmStkTinyInt: int64(i) - 3}
+			}
+			v.Set(reflect.ValueOf(s))
+			g.ev(fmt.Sprintf("stack %d values", big))
+			return true, nil
+		}
 		s := make(tlb.VmStack, 0, n)
 		for i := 0; i < n; i++ {
 			ev := reflect.New(reflect.TypeOf(tlb.VmStackValue{})).Elem()
